@@ -2,7 +2,7 @@
    specification of Layout/LineBreakSpec.v for all inputs, and is the only division
    that does. *)
 From Verif Require Import Layout.LineBreak Layout.LineBreakSpec.
-From Coq Require Import List ZArith QArith Qminmax Bool Lia.
+From Coq Require Import List ZArith QArith Qminmax Bool Lia Lqa.
 Import ListNotations.
 Open Scope Z_scope.
 
@@ -934,4 +934,142 @@ Proof.
   destruct (lines_are_unit_groups items lsI Hc Hne Hnf) as [g [Hp Hg]].
   destruct (H g Hp Hg) as [Hf [Hm Hfo]].
   rewrite <- Hg. f_equal. apply break_unique; assumption.
+Qed.
+
+(* ------------------------------------------------------------------ placement geometry *)
+Local Open Scope Q_scope.
+
+Lemma chain_hi : forall fs lo hi hi', chain lo hi fs -> hi <= hi' -> chain lo hi' fs.
+Proof.
+  induction fs as [|f r IH]; intros lo hi hi' H Hh; simpl in *.
+  - lra.
+  - destruct H as [H1 [H2 H3]]. repeat split; auto. eapply IH; eauto.
+Qed.
+
+Lemma zq_nonneg : forall z : Z, (0 <= z)%Z -> 0 <= zq z.
+Proof. intros z H. unfold zq. rewrite Zle_Qle in H. exact H. Qed.
+
+Lemma sumw_cons : forall i l, sumw (i :: l) = (iw i + sumw l)%Z.
+Proof. reflexivity. Qed.
+
+Lemma nspaces_cons : forall emv i l,
+  nspaces emv (i :: l) = (match i with Space _ w => w / emv | _ => 0 end + nspaces emv l)%Z.
+Proof. intros. destruct i; reflexivity. Qed.
+
+Lemma advance_cons : forall emv extra i l,
+  advance emv extra (i :: l) ==
+  zq (iw i) + (match i with Space _ w => zq (w / emv) * extra | _ => 0 end) + advance emv extra l.
+Proof.
+  intros. unfold advance. rewrite sumw_cons, nspaces_cons.
+  unfold zq. rewrite !inject_Z_plus. destruct i; simpl inject_Z; ring.
+Qed.
+
+Lemma walk_chain : forall l emv extra x run lo,
+  wf l -> 0 <= extra -> (0 <= emv)%Z ->
+  match run with
+  | None => lo <= x
+  | Some (s, w) => lo <= s /\ s + w == x /\ 0 <= w
+  end ->
+  chain lo (x + advance emv extra l) (walk emv extra x run l).
+Proof.
+  induction l as [|i r IH]; intros emv extra x run lo Hwf He Hem Hrun.
+  - assert (E : advance emv extra [] == 0) by (unfold advance, zq; cbn; ring).
+    destruct run as [[s w]|]; cbn [walk chain fx fw].
+    + destruct Hrun as [H1 [H2 H3]]. repeat split; auto. rewrite E. lra.
+    + rewrite E. lra.
+  - inversion Hwf as [|? ? Hi Hr]; subst.
+    pose proof (zq_nonneg _ Hi) as Hiq.
+    assert (Hadv := advance_cons emv extra i r).
+    destruct i as [w0|m w0|e|e|m w0 h|]; cbn [walk iw] in *.
+    + (* Word *)
+      eapply chain_hi.
+      * apply (IH emv extra (x + zq w0)); auto.
+        destruct run as [[s w]|]; [destruct Hrun as [H1 [H2 H3]]; repeat split; auto; lra|].
+        repeat split; auto; lra.
+      * lra.
+    + (* Space *)
+      assert (Hd : 0 <= zq (w0 / emv) * extra).
+      { apply Qmult_le_0_compat; [|exact He]. apply zq_nonneg.
+        destruct (Z.eq_dec emv 0) as [E|E]; [subst; rewrite Zdiv_0_r; lia|].
+        apply Z.div_pos; lia. }
+      eapply chain_hi.
+      * apply (IH emv extra (x + (zq w0 + zq (w0 / emv) * extra))); auto.
+        destruct run as [[s w]|]; [destruct Hrun as [H1 [H2 H3]]; repeat split; auto; lra|].
+        repeat split; auto; lra.
+      * lra.
+    + (* Open *)
+      destruct run as [[s w]|]; cbn [app].
+      * destruct Hrun as [H1 [H2 H3]]. cbn [chain fx fw]. repeat split; auto.
+        eapply chain_hi; [apply (IH emv extra (x + zq e) None (s + w)); auto; lra|lra].
+      * eapply chain_hi; [apply (IH emv extra (x + zq e) None lo); auto; lra|lra].
+    + (* Close *)
+      destruct run as [[s w]|]; cbn [app].
+      * destruct Hrun as [H1 [H2 H3]]. cbn [chain fx fw]. repeat split; auto.
+        eapply chain_hi; [apply (IH emv extra (x + zq e) None (s + w)); auto; lra|lra].
+      * eapply chain_hi; [apply (IH emv extra (x + zq e) None lo); auto; lra|lra].
+    + (* Atomic *)
+      destruct run as [[s w]|]; cbn [app].
+      * destruct Hrun as [H1 [H2 H3]]. cbn [chain fx fw]. repeat split; auto; try lra.
+        eapply chain_hi; [apply (IH emv extra (x + zq w0) None (x + zq w0)); auto; lra|lra].
+      * cbn [chain fx fw]. repeat split; auto.
+        eapply chain_hi; [apply (IH emv extra (x + zq w0) None (x + zq w0)); auto; lra|lra].
+    + (* Hard *)
+      destruct run as [[s w]|]; cbn [app].
+      * destruct Hrun as [H1 [H2 H3]]. cbn [chain fx fw]. repeat split; auto.
+        eapply chain_hi; [apply (IH emv extra x None (s + w)); auto; lra|lra].
+      * eapply chain_hi; [apply (IH emv extra x None lo); auto; lra|lra].
+Qed.
+
+Lemma wf_drops : forall l t, drops_spaces l t -> wf l -> wf t.
+Proof.
+  intros l t H. induction H; intros Hw; auto.
+  - inversion Hw; subst. constructor; auto. apply IHdrops_spaces; auto.
+  - inversion Hw; subst. apply IHdrops_spaces; auto.
+Qed.
+
+Lemma align_extra_nonneg : forall c ind last v, 0 <= snd (align_params c ind last v).
+Proof.
+  intros. unfold align_params.
+  destruct (avail c <=? ind + sumw v)%Z eqn:E; [simpl; lra|].
+  apply Z.leb_gt in E.
+  destruct (al c); simpl; try lra.
+  destruct (last || negb (pcoll c) || (nspaces (em c) v <=? 0)%Z) eqn:E2; simpl; [lra|].
+  apply orb_false_iff in E2. destruct E2 as [_ E2]. apply Z.leb_gt in E2.
+  apply Qle_shift_div_l.
+  - unfold zq. rewrite Zlt_Qlt in E2. exact E2.
+  - rewrite Qmult_0_l. apply zq_nonneg. lia.
+Qed.
+
+(* the fragments of a placed line follow each other, without overlap, between the start
+   of the content (start edge + text-indent + alignment offset) and that start plus the
+   advance of the trimmed line *)
+Theorem place_chain : forall (c : cfg) (first last : bool) (l : list item), wf l -> (0 <= em c)%Z ->
+  let ind := if first then indent c else 0%Z in
+  let v := trim_line l in
+  let p := align_params c ind last v in
+  let start := x0 c + zq ind + fst p in
+  chain start (start + advance (em c) (snd p) v) (place c first last l).
+Proof.
+  intros c first last l Hwf Hem ind v p start. unfold place.
+  fold ind. fold v. fold p. destruct p as [off extra] eqn:Ep.
+  apply walk_chain; auto.
+  - apply (wf_drops l); [apply trim_drops_spaces|exact Hwf].
+  - pose proof (align_extra_nonneg c ind last v) as H. fold p in H. rewrite Ep in H. exact H.
+  - subst start. simpl. lra.
+Qed.
+
+(* for text-align: end, and for justified lines, the content ends at the end edge *)
+Theorem place_end_edge : forall (c : cfg) (ind : Z) (last : bool) (v : list item),
+  (ind + sumw v < avail c)%Z ->
+  let p := align_params c ind last v in
+  (al c = AEnd \/ (al c = AJustify /\ last = false /\ pcoll c = true /\ (0 < nspaces (em c) v)%Z)) ->
+  x0 c + zq ind + fst p + advance (em c) (snd p) v == x0 c + zq (avail c).
+Proof.
+  intros c ind last v Hlt p H.
+  destruct (align_spec c ind last v) as [_ A]. specialize (A Hlt). fold p in A.
+  unfold advance.
+  assert (Ez : zq (ind + sumw v) == zq ind + zq (sumw v)) by (unfold zq; now rewrite inject_Z_plus).
+  destruct H as [H|[H [Hl [Hp Hn]]]]; rewrite H in A.
+  - destruct A as [A1 A2]. rewrite A2. rewrite Ez in A1. lra.
+  - destruct A as [A1 [_ A3]]. specialize (A3 Hl Hp Hn). rewrite Ez in A3. rewrite A1. lra.
 Qed.
